@@ -400,7 +400,9 @@ func checkAnchors(fi *FuncInfo, sp *FuncSpec) {
 	if os.Getenv("GOVC_LISTLOOPS") != "" {
 		fmt.Printf("LOOPS %s %s %d\n", fi.Pkg.Name, fi.Key, nloops)
 	}
-	if sp.LoopCountSet && sp.LoopCount != nloops {
+	// with loop clauses any change of the count moves the ordinals; without them only NEW loops matter (they would be
+	// executed without an invariant), fewer loops are harmless
+	if sp.LoopCountSet && ((len(sp.Loops) > 0 && sp.LoopCount != nloops) || (len(sp.Loops) == 0 && nloops > sp.LoopCount)) {
 		panic(engineErr("the contract was written for %d loops but the function has %d: loop ordinals no longer name the same loops (anchor lost)", sp.LoopCount, nloops))
 	}
 	for ord := range sp.Loops {
